@@ -90,8 +90,18 @@ def nets_strategy(draw, names, max_nets=8, max_fan=6, min_nets=0):
         # weights are traffic estimates: they span many orders of magnitude
         w = draw(st.sampled_from([1, 1, 1.0, 0, 0.0, 2.5, 3, 0.25, 1e-6,
                                   1000, 1e6, 1e9]))
-        nets.append({"source": src, "sinks": sinks, "weight": w})
+        nets.append({"source": src, "sinks": sinks, "weight": w,
+                     # a single sink given as the vertex itself, the form
+                     # Net(source, sink) that the constructor documents
+                     "bare": len(sinks) == 1 and draw(st.booleans())})
     return nets
+
+
+def sinks_arg(vobj, n):
+    """The sinks argument of Net for a generated net."""
+    if n.get("bare") and len(n["sinks"]) == 1:
+        return vobj[n["sinks"][0]]
+    return [vobj[s] for s in n["sinks"]]
 
 
 @st.composite
@@ -203,7 +213,7 @@ def build_problem(case):
     vobj = pr.vertex_objects(names, case["vkind"])
     vr = OrderedDict((vobj[v["name"]], pr.res_dict(v["needs"]))
                      for v in case["vertices"])
-    nets = [Net(vobj[n["source"]], [vobj[s] for s in n["sinks"]], n["weight"])
+    nets = [Net(vobj[n["source"]], sinks_arg(vobj, n), n["weight"])
             for n in case["nets"]]
     cons = []
     sub = case.get("subcls", False)
